@@ -237,7 +237,7 @@ def x_mutant(draw):
 @st.composite
 def x_extreme(draw):
     k = draw(st.sampled_from(["blocks", "parens", "literals", "locals", "args", "functions", "globals", "switch", "strswitch", "longline", "macro_expand",
-                              "macro_args", "chain", "ifnest", "biglines", "biglines", "include_big", "include_big", "strings", "bigarray", "elseif", "ternary", "bigstring", "classes", "nested_literal_locals", "globalinit", "globalinit"]))
+                              "macro_args", "chain", "ifnest", "biglines", "biglines", "include_big", "include_big", "strings", "bigarray", "elseif", "ternary", "bigstring", "classes", "nested_literal_locals", "globalinit", "globalinit", "longident", "longident"]))
     n = draw(st.sampled_from([1, 5, 9, 10, 11, 24, 25, 26, 30, 50, 64, 100, 250, 255, 256, 257, 500, 1000]))
     if k == "include_big":
         # text in front of and behind an #include of a file larger than a read chunk: the lexer has to move the includer's unread text
@@ -312,6 +312,29 @@ def x_extreme(draw):
         return "#if 1\n" * n + "int f() { return 1; }\n" + "#endif\n" * close
     if k == "strings":
         return "string *f() { return ({ " + ", ".join('"s%d"' % i for i in range(n)) + " }); }\n"
+    if k == "longident":
+        # identifiers of 200-1000 characters where the compiler has something to say about them: its messages are composed in fixed buffers
+        I = draw(st.sampled_from(["v", "Q", "_"])) * draw(st.sampled_from([200, 230, 236, 250, 255, 256, 257, 300, 600, 1000]))
+        return draw(st.sampled_from([
+            "int f() { return %s; }\n" % I,
+            "int f() { return %s(1); }\n" % I,
+            "int %s; string %s;\nint f() { return 1; }\n" % (I, I),
+            "int f() { int %s; int %s; return 1; }\n" % (I, I),
+            "class C { int a; }\nint f() { class C c = new(class C); return c->%s; }\n" % I,
+            "int f() { class %s c; return 1; }\n" % I,
+            "int %s(int a) { return 1; }\nstring %s(string b, int c) { return b; }\n" % (I, I),
+            "#pragma strict_types\nint %s(int a);\nint g() { return %s(\"x\", 2, 3); }\nint %s(int a) { return a; }\n" % (I, I, I),
+            "int f() { return ::%s(); }\n" % I,
+            "int f() { return efun::%s(); }\n" % I,
+            "int f(int %s, int %s) { return 1; }\n" % (I, I),
+            "#ifdef %s\n#endif\n#undef %s\n#define %s(a,a) a\nint f() { return %s(1); }\n" % (I, I, I, I),
+            "mixed f() { return (: %s :); }\nmixed g() { return (: %s, 1 :); }\n" % (I, I),
+            "int f() { mapping m = ([]); return m->%s; }\n" % I,
+            "#pragma strict_types\nint %s() { return 1; }\nint h() { string t; t = %s(); return 1; }\n" % (I, I),
+            "int f() { string %s; %s = 1 + ({ }); %s(); return %s->%s; }\n" % (I, I, I, I, I),
+            "inherit \"/t/%s\";\nint f() { return 1; }\n" % I[:240],
+            "int f() { return call_other(this_object(), \"%s\"); }\nint g() { %s: return 1; }\n" % (I, I),
+        ]))
     if k == "globalinit":
         # initialisers of globals are compiled into a block of their own, which is appended to the program in one piece: a table of
         # several thousand constants makes that one piece several times larger than everything compiled before it
